@@ -26,7 +26,7 @@ LINE_TYPE_W = [('float', 8), ('int', 2), ('bool', 3), ('str', 2), ('enum', 1)]
 FLOATS = [0.0, 1.0, 2.5, 10.25, 1500.0, 0.005, 1.005, 2.675, -3.5, 99999.99, 0.125, 1500.01, 7.0]
 INTS = [0, 1, 2, 3, 5, 10, -1, 1500, 9007199254740993, 123456789012345678901]
 STRS = ['abc', 'John Q', 'x', '', 'a=b; c', 'Zoe~', '(paren', 'back\\slash', '1040', 'Where St #12', '#4B', 'x ;y', '; z',
-        'line one\nline two', 'a\n\nb after an empty line']
+        'line one\nline two', 'a\n\nb after an empty line', 'form\x0cfeed', 'vt\x0btab']
 REGEX_OK = ['ab1', 'cc9', 'ba0']
 SSNS = [('123-45-6789', '123456789'), ('987654321', '987654321'), ('000-00-0001', '000000001')]
 TRUE_TXT = ['yes', 'y', 'true', '1', 'on', 'Yes', 'TRUE']
@@ -473,7 +473,7 @@ def add_pdf(world, rng, tight=False):
     return world
 
 
-def gen_case(seed, force_faults=None, clean=None, defaults=False):
+def gen_case(seed, force_faults=None, clean=None, defaults=False, percent=False):
     rng = core.Rng(seed)
     r_f = rng.sub('faults')
     if force_faults is not None:
@@ -494,6 +494,13 @@ def gen_case(seed, force_faults=None, clean=None, defaults=False):
             for ispec in fs['inputs']:
                 txt, typed = render_value(r_p, ispec)
                 persona[qual(fs, inst, ispec['name'])] = {'text': txt, 'typed': typed, 'invalid': False}
+    if percent:
+        # a text value containing % (written %% in the file): legal input, but a solution cannot hold it - loud failure
+        strs = sorted(n for n in persona if (lambda sp: sp and sp['type'] == 'str')(
+            next((i for f in world['forms'] if f['name'] == n.split('.')[0].split(':')[0] for i in f['inputs'] if i['name'] == n.split('.')[1]), None)))
+        if strs:
+            n = r_p.pick(strs)
+            persona[n] = {'text': 'Fifty% Off Outlet', 'typed': ['s', 'Fifty% Off Outlet'], 'invalid': False}
     # stray sections: an instanced form's inputs also given under the un-instanced section name (nobody reads those)
     if r_p.chance(0.15):
         for fs in world['forms']:
@@ -518,7 +525,8 @@ def gen_case(seed, force_faults=None, clean=None, defaults=False):
     else:
         p_present = r_s.pick([1.0, 1.0, 0.8, 0.5, 0.0])
     names = sorted(persona)
-    infile = [n for n in names if persona[n]['invalid'] or persona[n].get('stray') or '\n' in persona[n]['text'] or r_s.chance(p_present)]
+    infile = [n for n in names if persona[n]['invalid'] or persona[n].get('stray') or '\n' in persona[n]['text']
+              or '%' in persona[n]['text'] or r_s.chance(p_present)]
     if 'missing' in faults:
         prompt = r_s.chance(0.3)
     else:
@@ -623,7 +631,7 @@ def file_text(case_or_items, layout=None, names=None):
     if isinstance(case_or_items, dict):
         case = case_or_items
         names = case['file'] if names is None else names
-        items = [(n, case['persona'][n]['text']) for n in names]
+        items = [(n, case['persona'][n]['text'].replace('%', '%%')) for n in names]
         layout = case.get('layout') if layout is None else layout
         for sec, key, txt in case.get('noise') or []:
             items.append((f'{sec}.{key}', txt))
